@@ -1,0 +1,5 @@
+//go:build !verif
+
+package httpgrpc
+
+func verifPoint(string) {}
